@@ -2,7 +2,7 @@
 import z3
 from pyvc.engine import Contract, ExcSpec, LoopSpec
 from pyvc.sorts import (anc, str_lit, is_alloc, STR, BOOL, INT, PYV, OBJ, SET, MAP, LIST, OPT, StrS, ObjS, PyV, PyVs, KVs,
-                        cls_isinstance, cls_of, CLS, abspath, dirname, K_FILE, K_DIR, K_ABSENT, EXC,
+                        cls_isinstance, cls_of, CLS, abspath, dirname, slen, K_FILE, K_DIR, K_ABSENT, EXC,
                         exc_issub)
 from pyvc.values import CallbackV, Sym
 from spec import json_spec as J
@@ -201,6 +201,18 @@ def clean_rmdir_guard(eng, st, args):
 
 
 xs_ = z3.Const('fb!x', StrS)
+
+
+def clean_removals_only(c):
+    """since this loop began (gold = the state in which the loop was entered)"""
+    return ForAll([xs_], Or(c.gnew('fs_kind')[xs_] == c.gold('fs_kind')[xs_],
+                            c.gnew('fs_kind')[xs_] == K_ABSENT))
+
+
+def clean_attempts_grow(c):
+    return ForAll([xs_], Implies(c.gold('rm_attempts')[xs_], c.gnew('rm_attempts')[xs_]))
+
+
 CONTRACTS.append(guard_set(Contract(
     M + 'clean', props=['C12', 'C15', 'C03'],
     params={'cache_filename': PYV, 'build_name': PYV},
@@ -212,15 +224,77 @@ CONTRACTS.append(guard_set(Contract(
     raises=[ExcSpec('Exception', ensures=no_effect, modifies=NOTHING)],
     modifies=lambda c: ['g:eff', 'g:fs_kind', 'g:fs_epoch', 'g:rm_attempts', 'g:vstate'],
     loops={
-        0: LoopSpec(inv=lambda c: [('no-callback', c.gnew('ncalls') == c.gentry('ncalls'))]),
+        0: LoopSpec(inv=lambda c: [
+            ('no-callback', c.gnew('ncalls') == c.gentry('ncalls')),
+            # C12 coverage: every recorded output visited so far is no regular file any more, or
+            # its removal has been attempted (and failed with an OSError, which clean ignores)
+            ('visited-outputs-are-removed', ForAll([xs_], Implies(
+                c.loop['seen'][xs_],
+                Or(c.gnew('rm_attempts')[xs_], c.gnew('fs_kind')[xs_] != K_FILE))), ['C12']),
+            ('removals-only', clean_removals_only(c), ['C12', 'C03']),
+            ('attempts-only-grow', clean_attempts_grow(c), ['C12'])]),
         1: LoopSpec(inv=lambda c: [('no-callback', c.gnew('ncalls') == c.gentry('ncalls'))]),
     },
-    lemmas=['lookup_sanitized', 'sanitized_eqdom'],
+    lemmas=['lookup_sanitized', 'sanitized_eqdom', 'PATHS'],
 ), remove=clean_remove_guard, rmdir=clean_rmdir_guard))
 CONTRACTS[-1].inlined_loops = {
     'file_builder.FileBuilder._remove_empty_dirs': {
-        0: LoopSpec(inv=lambda c: [('no-callback', c.gnew('ncalls') == c.gentry('ncalls'))])},
+        0: LoopSpec(inv=lambda c: [
+            ('no-callback', c.gnew('ncalls') == c.gentry('ncalls')),
+            ('visited-dirs-were-attempted', ForAll([xs_], Implies(
+                c.loop['seen'][xs_], c.gnew('rm_attempts')[xs_])), ['C12']),
+            # C12 ("those directories that build created which are empty afterwards" are deleted):
+            # a visited directory is gone, is not empty, or the OS refused for another reason.
+            # Stays true while shorter-or-equal paths are removed (longest first: a child is
+            # longer than its parent), which is why the order of the clean-up steps matters.
+            ('visited-dirs-are-gone-or-not-empty', ForAll([xs_], Implies(
+                c.loop['seen'][xs_],
+                gone_or_not_empty(c.gnew('fs_kind'), c.gnew('os_failed'), c.gnew('ne_wit'), xs_))),
+             ['C12']),
+            ('visited-dirs-are-not-shorter-than-the-last-one', Implies(
+                c.loop['i'] > 0, ForAll([xs_], Implies(
+                    c.loop['seen'][xs_],
+                    slen(xs_) >= slen(c.loop['seq'][c.loop['i'] - 1])))), ['C12']),
+            ('nothing-visited-at-the-start', Implies(
+                c.loop['i'] == 0, ForAll([xs_], Not(c.loop['seen'][xs_]))), ['C12']),
+            ('removals-only', clean_removals_only(c), ['C12', 'C03']),
+            ('attempts-only-grow', clean_attempts_grow(c), ['C12']),
+            ('refusals-only-grow', ForAll([xs_], Implies(c.gold('os_failed')[xs_],
+                                                         c.gnew('os_failed')[xs_])))])},
 }
+
+
+def gone_or_not_empty(kind, failed, wit, d):
+    """d is no directory (any more), or the OS refused to remove it for a reason other than
+    ENOTEMPTY, or it still has a child (the one logged when its rmdir failed)"""
+    return Or(kind[d] != K_DIR, failed[d],
+              And(dirname(wit[d]) == d, wit[d] != d, kind[wit[d]] != K_ABSENT))
+
+
+def clean_exit(eng, st, ctrl, v):
+    """C12 coverage ("clean deletes the output files recorded by the last committed build, the
+    cache file, and those directories that build created which are empty afterwards"): at every
+    normal exit that read a cache, each recorded output and the cache file is no regular file any
+    more or had its removal attempted, and each recorded directory had its rmdir attempted"""
+    if ctrl not in ('ret', 'ok') or not isinstance(st.env.get('cache'), Sym):
+        return []
+    cache = st.env['cache'].t
+    view = _StView(eng, st)
+    kind, rm = eng.gread(st, 'fs_kind'), eng.gread(st, 'rm_attempts')
+    cf = env_t(st, 'cache_filename')
+    dirs = eng.hread(st, 'Cache._created_dirs', cache)
+    return [
+        ('every-recorded-output-is-removed', ForAll([xs_], Implies(
+            CA.created(view, 'old', cache, xs_), Or(rm[xs_], kind[xs_] != K_FILE))), ['C12']),
+        ('the-cache-file-is-removed', Or(rm[cf], kind[cf] != K_FILE), ['C12']),
+        ('every-recorded-directory-is-attempted', ForAll([xs_], Implies(dirs[xs_], rm[xs_])),
+         ['C12']),
+        ('every-recorded-directory-is-gone-or-not-empty', ForAll([xs_], Implies(
+            dirs[xs_], gone_or_not_empty(kind, eng.gread(st, 'os_failed'), eng.gread(st, 'ne_wit'),
+                                         xs_))), ['C12'])]
+
+
+CONTRACTS[-1].exit_obligations = clean_exit
 
 
 # ---------------------------------------------------------------------------------------------------
@@ -235,6 +309,7 @@ BUILD_MODS = [
     'ComplexOperation.raised', 'ComplexOperation.setup_failed',
     'BuildFileOperation.file_comparison_result', 'SimpleOperation.exception_type_str',
     'Cache._files', 'Cache._norm_cased_files', 'Cache._subbuilds', 'Cache._created_dirs',
+    'Cache._built_files',
     'BuildDirs._build_dir_counts', 'BuildDirs._created_dirs_map', 'BuildDirs._error_created_dirs',
     'BuildDirs._removed_dirs', 'BuildDirs._exists_dirs', 'BuildDirs._maybe_removed_dirs',
     'BuildDirs._removed_files', 'FileBackups._backups', 'FileBackups._next_backup_index',
@@ -325,7 +400,7 @@ CONTRACTS.append(guard_set(Contract(
     ensures=lambda c: [('first-effect-is-the-backup-directory', first_effect_is_mkdtemp(c))],
     raises=[ExcSpec('BaseException', ensures=lambda c: [
         ('refused-or-first-effect-is-the-backup-directory', first_effect_is_mkdtemp(c))])],
-    modifies=lambda c: list(SH.keys()) + BUILD_GHOSTS + ['g:mkdtemp_at'],
+    modifies=lambda c: list(SH.keys()) + BUILD_GHOSTS + ['g:mkdtemp_at', 'g:wopen_attempts'],
     lemmas=['lookup_sanitized', 'sanitized_eqdom', 'rt_sanitized'],
 ), mkdtemp=bv_mkdtemp_guard))
 CONTRACTS[-1].exit_obligations = bv_exit
@@ -1052,6 +1127,20 @@ def commit_rmdir_guard(eng, st, args):
              Or(eng.hread(st, 'Cache._created_dirs', oc)[p], in_list(err, p)), ['C03', 'C12'])]
 
 
+class _ExNow:
+    """the executor's view contract functions read through (.self, .old, .gold): adapter that
+    makes them read the *current* state of a FileBuilder loop context"""
+    def __init__(self, c):
+        self.self = c.new('FileBuilder._simple_operation_executor', c.self)
+        self.old, self.gold = c.new, c.gnew
+
+
+def commit_kept(c, x):
+    v = _ExNow(c)
+    cfn = c.new('SimpleOperationExecutor._norm_cased_cache_filename', v.self)
+    return Or(EXC_.vfile(v, x, None), x == cfn)
+
+
 COMMIT = guard_set(Contract(
     M + '_commit', props=['C03', 'C01', 'C12', 'C10'],
     params={'self': FB, 'norm_cased_error_created_dirs': LIST(STR)},
@@ -1060,7 +1149,18 @@ COMMIT = guard_set(Contract(
     local_types={'dirs_to_remove': SET(STR)},
     loops={
         0: LoopSpec(inv=lambda c: [('no-callback', c.gnew('ncalls') == c.gentry('ncalls')),
-                                   ('effects-appended', log_prefix(c.gentry('eff'), c.gnew('eff')))]),
+                                   ('effects-appended', log_prefix(c.gentry('eff'), c.gnew('eff'))),
+                                   # C01.L8 / C12 coverage: every output of the previous build
+                                   # visited so far is still a file of the virtual view (kept), is
+                                   # the cache file, is no regular file any more, or had its
+                                   # removal attempted
+                                   ('visited-stale-outputs-are-removed', ForAll([xs_], Implies(
+                                       c.loop['seen'][xs_],
+                                       Or(c.gnew('rm_attempts')[xs_],
+                                          c.gnew('fs_kind')[xs_] != K_FILE,
+                                          commit_kept(c, xs_)))), ['C01', 'C12']),
+                                   ('removals-only', clean_removals_only(c), ['C03', 'C01']),
+                                   ('attempts-only-grow', clean_attempts_grow(c), ['C01'])]),
         1: LoopSpec(inv=lambda c: [
             ('no-callback', c.gnew('ncalls') == c.gentry('ncalls')),
             ('effects-appended', log_prefix(c.gentry('eff'), c.gnew('eff'))),
@@ -1139,12 +1239,53 @@ ROLLBACK = guard_set(Contract(
             ('no-callback', c.gnew('ncalls') == c.gentry('ncalls')),
             ('effects-appended', log_prefix(c.gentry('eff'), c.gnew('eff'))),
             ('to-remove-were-made-by-this-build', ForAll([xs_], Implies(
-                c.v('dirs_to_remove')[xs_], made_by_this_build(c, xs_))))]),
+                c.v('dirs_to_remove')[xs_], made_by_this_build(c, xs_)))),
+            # C02.R4 ("no file created by the failed build remains"): a file registered by this
+            # build is either a result of the previous build that was reused as it is (registered
+            # there, and not built now), or it is not a regular file any more / its removal has
+            # been attempted.  A rebuilt file whose old copy existed was moved to the backups and
+            # is put back by restore_all afterwards.
+            ('every-file-this-build-built-is-removed', ForAll([xs_], Implies(
+                And(c.loop['seen'][xs_], Not(reused_as_it_is(c, xs_))),
+                Or(c.gnew('rm_attempts')[xs_], c.gnew('fs_kind')[xs_] != K_FILE))), ['C02']),
+            ('removals-only', removals_only(c), ['C02', 'C03'])]),
     },
 ), remove=rollback_remove_guard, rmdir=rollback_rmdir_guard, mkdir=rollback_mkdir_guard)
+
+
+def reused_as_it_is(c, x):
+    oc = c.new('FileBuilder._old_cache', c.self)
+    nc = c.new('FileBuilder._new_cache', c.self)
+    return And(CA.created(c, 'new', oc, x), Not(c.new('Cache._built_files', nc)[x]))
+
+
+def removals_only(c):
+    """since the rollback began, the file system changed only by removals"""
+    return ForAll([xs_], Or(c.gnew('fs_kind')[xs_] == c.gentry('fs_kind')[xs_],
+                            c.gnew('fs_kind')[xs_] == K_ABSENT))
+
+
+def rollback_restore_guard(eng, st, cargs):
+    """C02/C03 ("even overwritten foreign files are back"): restore_all skips a file whose place
+    is taken by a directory, so when it is called the rollback must not itself have put a
+    directory where a backed-up file belongs"""
+    b = eng.hread(st, 'FileBackups._backups', eng.hread(st, 'FileBuilder._backups',
+                                                       env_t(st, 'self')))
+    i = z3.Const('fb!bi', z3.IntSort())
+    TS = SH['FileBackups._backups'].args[0].sort()
+    k0, k1 = eng.gread(eng.entry_state, 'fs_kind'), eng.gread(st, 'fs_kind')
+    orig = TS.t0(b[i])
+    return [('no-directory-put-in-the-place-of-a-backed-up-file', ForAll([i], Implies(
+        And(i >= 0, i < z3.Length(b), k1[orig] == K_DIR), k0[orig] == K_DIR)), ['C02', 'C03'])]
+
+
+ROLLBACK.call_guards = {'file_backups.FileBackups.restore_all': rollback_restore_guard}
 _lp = LoopSpec(inv=lambda c: [('no-callback', c.gnew('ncalls') == c.gentry('ncalls')),
                               ('effects-appended', log_prefix(c.gentry('eff'), c.gnew('eff')))])
-ROLLBACK.inlined_loops = {'file_builder.FileBuilder._remove_empty_dirs': {0: _lp},
+_lp_rm = LoopSpec(inv=lambda c: [('no-callback', c.gnew('ncalls') == c.gentry('ncalls')),
+                                 ('effects-appended', log_prefix(c.gentry('eff'), c.gnew('eff'))),
+                                 ('removals-only', removals_only(c), ['C02', 'C03'])])
+ROLLBACK.inlined_loops = {'file_builder.FileBuilder._remove_empty_dirs': {0: _lp_rm},
                           'file_builder.FileBuilder._create_dirs': {0: _lp}}
 CONTRACTS.append(ROLLBACK)
 
@@ -1394,6 +1535,21 @@ def cache_write_guard(eng, st, args):
              ['C03', 'C16', 'C02'])]
 
 
+qo_ = z3.Const('fb!qo', ObjS)
+qe_ = z3.Const('fb!qe', CA.OI)
+
+
+def cache_write_exit(eng, st, ctrl, v):
+    """every root among the collected operations was serialised"""
+    if ctrl not in ('ret', 'ok') or not isinstance(st.env.get('operations'), Sym) \
+            or not isinstance(st.env.get('non_root_operations'), Sym):
+        return []
+    ops, nonroot = st.env['operations'].t, st.env['non_root_operations'].t
+    return [('every-root-is-serialised', ForAll([qe_], Implies(
+        And(z3.Contains(ops, z3.Unit(qe_)), CA.OI.is_some(qe_), Not(nonroot[CA.OI.val(qe_)])),
+        eng.gread(st, 'ser')[CA.OI.val(qe_)])), ['C16', 'C12', 'C01', 'C06'])]
+
+
 CACHE_WRITE = guard_set(Contract(
     'file_builder.cache.Cache.write', props=['C16', 'C02', 'C14', 'C03', 'C12'],
     params={'self': OBJ('Cache'), 'filename': STR},
@@ -1407,8 +1563,15 @@ CACHE_WRITE = guard_set(Contract(
     ensures=lambda c: [
         ('exactly-one-effect', c.gnew('eff') == c.gold('eff') + 1),
         ('file-written', c.gnew('fs_kind') == z3.Store(c.gold('fs_kind'), c.filename, K_FILE)),
+        ('write-logged', c.gnew('wopen_attempts')
+         == z3.Store(c.gold('wopen_attempts'), c.filename, True)),
         ('no-callback', c.gnew('ncalls') == c.gold('ncalls'))],
     raises=[ExcSpec('Exception', ensures=lambda c: [
+        # ghost log of the attempt: if the file system changed, the open of that file was logged
+        ('write-logged-if-attempted', Or(
+            And(c.gnew('wopen_attempts') == c.gold('wopen_attempts'),
+                c.gnew('fs_kind') == c.gold('fs_kind')),
+            c.gnew('wopen_attempts') == z3.Store(c.gold('wopen_attempts'), c.filename, True))),
         # the open may have created (or truncated) the file before the failure
         ('at-most-that-file-touched', Or(
             c.gnew('fs_kind') == c.gold('fs_kind'),
@@ -1416,20 +1579,32 @@ CACHE_WRITE = guard_set(Contract(
         ('at-most-one-effect', And(c.gnew('eff') >= c.gold('eff'),
                                    c.gnew('eff') <= c.gold('eff') + 1)),
         ('no-callback', c.gnew('ncalls') == c.gold('ncalls'))])],
-    modifies=lambda c: ['g:eff', 'g:fs_kind', 'g:fs_epoch', 'g:vstate'],
+    modifies=lambda c: ['g:eff', 'g:fs_kind', 'g:fs_epoch', 'g:vstate', 'g:wopen_attempts'],
     local_types={'non_root_operations': SET(OBJ('Operation')),
                  'root_operations_json': LIST(PYV)},
     loops={0: LoopSpec(modifies=NOTHING, inv=lambda c: no_effect_loop(c)),
-           1: LoopSpec(modifies=NOTHING, inv=lambda c: no_effect_loop(c))},
+           1: LoopSpec(modifies=lambda c: ['g:ser'], inv=lambda c: no_effect_loop(c) + [
+               # C16/C12/C01: every registered record that is not a suboperation of another
+               # registered record is handed to the serialiser -- whatever its outcome flags
+               ('every-root-visited-so-far-is-serialised', ForAll([qe_], Implies(
+                   And(c.loop['seen'][qe_], CA.OI.is_some(qe_),
+                       Not(c.v('non_root_operations')[CA.OI.val(qe_)])),
+                   c.gnew('ser')[CA.OI.val(qe_)])), ['C16', 'C12', 'C01', 'C06']),
+               ('serialised-log-grows', ForAll([qo_], Implies(c.gold('ser')[qo_],
+                                                              c.gnew('ser')[qo_])))])},
     notes='effects verified; the serialised content (json + gzip) is the trusted file layer with '
           'the bounded stand-in cache_forest'), write_open=cache_write_guard)
+CACHE_WRITE.exit_obligations = cache_write_exit
 CONTRACTS.append(CACHE_WRITE)
 CONTRACTS.append(Contract(
     'file_builder.cache.Cache._operation_to_json', props=['C16'], trusted=True,
     params={'self': OBJ('Cache'), 'operation': OBJ('Operation')}, returns=PYV,
-    ensures=lambda c: no_effect(c),
+    ensures=lambda c: no_effect(c) + [
+        ('serialised-logged', c.gnew('ser') == z3.Store(c.gold('ser'), c.operation, True))],
     raises=[ExcSpec('RuntimeError', ensures=no_effect)],
-    modifies=NOTHING, notes='serialisation of one record tree (recursion: bounded stand-in)'))
+    modifies=lambda c: ['g:ser'],
+    notes='serialisation of one record tree (recursion: bounded stand-in); logs the record in the '
+          'scratch ghost `ser`'))
 
 SET_CREATED = Contract(
     M + '_set_created_dirs', props=['C12', 'C02', 'C10'],
@@ -1485,6 +1660,31 @@ def build_write_guard(eng, st, cargs):
              ['C16', 'C02', 'C14', 'C12'])]
 
 
+def build_rollback_guard(eng, st, cargs):
+    """C02 ("... or while the cache file is being written ... no file created by the failed build
+    remains"): when the rollback starts after this build opened the cache file for writing, the
+    (partial) file is gone, its removal has been attempted, or the previous cache file is the last
+    backup and restore_all will put it back over it"""
+    me = env_t(st, 'self')
+    cf = eng.cur_args['cache_filename'].t
+    w0, w1 = eng.gread(eng.entry_state, 'wopen_attempts'), eng.gread(st, 'wopen_attempts')
+    kind, rm = eng.gread(st, 'fs_kind'), eng.gread(st, 'rm_attempts')
+    b = eng.hread(st, 'FileBackups._backups', eng.hread(st, 'FileBuilder._backups', me))
+    TS = SH['FileBackups._backups'].args[0].sort()
+    return [('cache-file-written-by-this-build-is-not-left-behind', Implies(
+        And(w1[cf], Not(w0[cf]), kind[cf] == K_FILE),
+        Or(rm[cf], And(z3.Length(b) > 0, TS.t0(b[z3.Length(b) - 1]) == cf))), ['C02', 'C16'])]
+
+
+def build_remove_guard(eng, st, args):
+    """C03/C02: the only file _build itself removes is the cache file, and only after this build
+    opened it for writing (the previous cache file was moved to the backups before that)"""
+    p = args[0]
+    cf = eng.cur_args['cache_filename'].t
+    return [('only-the-cache-file-this-build-was-writing',
+             And(p == cf, eng.gread(st, 'wopen_attempts')[cf]), ['C03', 'C02', 'C16'])]
+
+
 def build_backup_guard(eng, st, cargs):
     return [('moves-only-the-cache-file', cargs['filename'].t == eng.cur_args['cache_filename'].t,
              ['C03', 'C02'])]
@@ -1515,9 +1715,11 @@ BUILD = call_guard_set(Contract(
         ]),
         # KeyboardInterrupt & co. pass through `except Exception`: no roll-back, flag not set
         ExcSpec('KeyboardInterrupt', ensures=eff_grows)],
-    modifies=lambda c: BUILD_MODS + BUILD_GHOSTS,
+    modifies=lambda c: BUILD_MODS + BUILD_GHOSTS + ['g:wopen_attempts'],
 ), **{'cache.Cache.write': build_write_guard,
+      'file_builder.FileBuilder._roll_back': build_rollback_guard,
       'file_backups.FileBackups.back_up_and_remove': build_backup_guard})
+BUILD.guards = {'remove': build_remove_guard}
 BUILD.callback_havoc = cb_havoc_root
 CONTRACTS.append(BUILD)
 
